@@ -1,1 +1,1 @@
-fn f(x: u32, k: u32) -> u32 { x << k }
+fn f(x: u64, k: u32) -> u64 { x << k }
